@@ -55,6 +55,10 @@ def _replay_sdf_one(data):
         text = m.to_sdf_string()
         d = tempfile.mkdtemp()
         f = os.path.join(d, "m.sdf")
+        # the path held another molecule before (written and read): what is read afterwards is what the file holds now
+        other = Molecule.from_arrays(np.array([e.atomic_number for e in m.elements][::-1] + [2]), np.vstack([np.asarray(m.positions, float)[::-1] + 0.25, [[9.0, 9.0, 9.0]]]))
+        other.save(f)
+        Molecule.load(f)
         m.save(f)
         m2 = Molecule.load(f)
         os.remove(f)
@@ -110,6 +114,10 @@ def replay_xyz(data):
     try:
         d = tempfile.mkdtemp()
         f = os.path.join(d, "m.xyz")
+        # the path held another molecule before (written and read): what is read afterwards is what the file holds now
+        other = Molecule.from_arrays(np.array([e.atomic_number for e in m.elements][::-1] + [2]), np.vstack([np.asarray(m.positions, float)[::-1] + 0.25, [[9.0, 9.0, 9.0]]]))
+        other.save(f)
+        Molecule.load(f)
         m.save(f)
         text = open(f).read()
         m2 = Molecule.load(f)
@@ -182,7 +190,16 @@ def run(ctx):
                 if r:
                     c.violation("%s:boundary" % fmt, "%s round trip fails on boundary values: %s" % (fmt.upper(), det[0]), data, rep)
         return run_
-    secs = [("sdf-atom-line", guarded("sdf-atom-line", sdf_atom_lines, "sdf")), ("sdf-counts-bonds", guarded("sdf-counts-bonds", sdf_counts_bonds, "sdf")),
+    def files(c):
+        """the file route of both formats on the real code: a path is written, read, written again with another molecule and read
+        again (ground instances; the symbolic sections go through strings)"""
+        data = {"Z": [6, 8, 17, 1], "pos": [[0.0, -0.00005, 0.12345], [-1.5, 12.3456, -123.4567], [1234.5678, -8123.0666, 0.5], [2.25, 3.5, -4.75]]}
+        for fmt, rep in (("sdf", replay_sdf), ("xyz", replay_xyz)):
+            r, det = rep(dict(data, _single=True))
+            c.record("%s: file written, read, rewritten with another molecule and read again (real code)" % fmt, "counterexample" if r else "holds", nontrivial=True, method="ground instances")
+            if r:
+                c.violation("%s:file" % fmt, "%s file route: %s" % (fmt.upper(), det[0]), dict(data, _single=True), rep)
+    secs = [("files", files), ("sdf-atom-line", guarded("sdf-atom-line", sdf_atom_lines, "sdf")), ("sdf-counts-bonds", guarded("sdf-counts-bonds", sdf_counts_bonds, "sdf")),
             ("sdf-records", guarded("sdf-records", sdf_records, "sdf")),
             ("xyz", guarded("xyz", lambda c: xyz_part(c, False), "xyz")), ("xyz-respelled", guarded("xyz-respelled", lambda c: xyz_part(c, True), "xyz"))]
     ctx.parallel_sections(secs)
